@@ -28,7 +28,7 @@ func tableEvent(w *ev.Writer, src string, roots []*boc.Cell, rng *rand.Rand) {
 		return
 	}
 	n := len(t.Cells)
-	h, hc, hr := make([]string, n), make([]string, n), make([]string, n)
+	h, hc, hr, hc2 := make([]string, n), make([]string, n), make([]string, n), make([]string, n)
 	hasher := boc.NewHasher()
 	perr := ""
 	func() {
@@ -50,6 +50,15 @@ func tableEvent(w *ev.Writer, src string, roots []*boc.Cell, rng *rand.Rand) {
 				hc[i] = "err"
 			} else {
 				hc[i] = s
+			}
+		}
+		// the same hasher asked again, now that every cell (and every ancestor) is in its cache
+		for i := 0; i < n; i++ {
+			x, err := hasher.Hash(t.Ptr[i])
+			if err != nil {
+				hc2[i] = "err"
+			} else {
+				hc2[i] = hex.EncodeToString(x)
 			}
 		}
 		for i := 0; i < n; i++ {
@@ -80,7 +89,7 @@ func tableEvent(w *ev.Writer, src string, roots []*boc.Cell, rng *rand.Rand) {
 		w.Emit(ev.M{"k": "Panic", "src": src, "panic": perr, "cells": t.Cells, "roots": t.Roots})
 		return
 	}
-	w.Emit(ev.M{"k": "Table", "src": src, "cells": t.Cells, "roots": t.Roots, "h": h, "hc": hc, "hr": hr})
+	w.Emit(ev.M{"k": "Table", "src": src, "cells": t.Cells, "roots": t.Roots, "h": h, "hc": hc, "hc2": hc2, "hr": hr})
 }
 
 // viaReadBits rebuilds every ordinary cell of the DAG through NewCellWithBits(ReadBits(n)) taken from a source
